@@ -21,6 +21,9 @@ use crate::worldp::{self, DiskImage, Incarnation, PlanEntry, PlanKind};
 
 pub struct C18;
 
+/// Safety factor on the printed-precision slack of the *result* comparison (see `roundtrip_and_check`).
+const SLACK_SAFETY: f64 = 4.0;
+
 #[derive(Clone, Debug, Serialize, Deserialize)]
 pub struct ProcPart {
     pub entropy1: u64,
@@ -382,8 +385,11 @@ fn roundtrip_and_check(text: &str, cfg: &EvalCfg, b: &Building) -> Outcome {
     }
     let bad_factors = fset.wdata.iter().filter(|w| !(same_f32(printed3(w.ren), w.ren) && same_f32(printed3(w.nren), w.nren) && same_f32(printed3(w.co2), w.co2))).count() as f64;
     let sc = Scale::of(b, cfg.area as f64);
-    let slack_abs = 0.005 * imprecise + 0.0005 * sc.e_an * bad_factors;
-    let slack_step = 0.005 * imprecise_lines + 0.0005 * sc.e_an * bad_factors;
+    // SLACK_SAFETY: the propagation of the printed-precision loss to the results is a first-order estimate with
+    // estimated amplification terms; value-level fidelity is decided exactly by the component-level checks above,
+    // the result comparison is there for structural damage (lost or altered lines, tags, metadata), which is large
+    let slack_abs = SLACK_SAFETY * 0.005 * imprecise + 0.0005 * sc.e_an * bad_factors;
+    let slack_step = SLACK_SAFETY * 0.005 * imprecise_lines + 0.0005 * sc.e_an * bad_factors;
     let rep = compare(&sut::flatten(&ep1), &sut::flatten(&ep2), &sc, slack_abs, slack_step);
     if !rep.ok() {
         return Outcome::Bad(Violation::new(
@@ -560,7 +566,7 @@ fn process_world(ctx: &Ctx, scn: &Scn, pp: &ProcPart, ex: &mut Exec, fp: &mut Fn
     }
     let area: f64 = r1.get("arearef").and_then(|v| v.as_f64()).unwrap_or(1.0);
     let sc = Scale::of(&scn.b, area);
-    let slack = 0.005 * imprecise * if pp.second_generation { 2.0 } else { 1.0 };
+    let slack = SLACK_SAFETY * 0.005 * imprecise * if pp.second_generation { 2.0 } else { 1.0 };
     if let Some(m) = json_mismatch_with_slack(&r1, &r2, &sc, slack) {
         return Some(Violation::new(
             "roundtrip_result",
